@@ -3,13 +3,23 @@
 Oracles: (1) ctypes.Structure/Union with identical members (the platform C ABI) for the ctypes-expressible subset,
 (2) the textbook rule in refimpl for everything (int24/48/128 take the table's alignment), (3) the Lean model's layout.
 Size agreement: len(T), sizeof(T) in an expression, bytes consumed by parsing, bytes produced by dumping.
+
+Added probe families (s1):
+  * size agreement on every fixed-size struct / union of a definition, not only on the top-level structure: each nested
+    aggregate class is parsed and dumped on its own and as element of an array U[k] (len == consumed == dumped == k*len(U));
+    the definition is additionally loaded with its nested aggregates hoisted into named definitions (defs.hoist), which
+    must give the same layout and makes sizeof(N) of every nested type observable.
+  * pointer-width histories: ONE cstruct instance; a definition with pointers is loaded (and used), `cs.pointer` is changed
+    to another width, further definitions with pointers (often to the same target types) are loaded; every newly loaded
+    definition must have the C layout for the width in effect - the layout a fresh instance gives - and agreeing sizes
+    (s1_hist.pointer_history).
 """
 from __future__ import annotations
 
 import ctypes
 import itertools
 
-from .. import common, defs, impl, refimpl
+from .. import common, defs, impl, refimpl, s1_hist, s1_mixed
 from ..common import Case, Result, mkrng
 from ..structprops import Engine, load, is_dynamic, bits_after_dynamic, small_unit_bits, has_union, has, rand_bytes
 
@@ -49,13 +59,198 @@ def to_ctypes(ty, align, ptr):
     return type(f"C{next(_n)}", (base,), ns)
 
 
+def signatures(tree, cfg, align):
+    sigs = []
+    try:
+        if bits_after_dynamic(tree, cfg):
+            sigs.append("F6")
+    except refimpl.Bad:  # a straddling bit-field in a nested structure: the definition must be rejected, no signature applies
+        pass
+    if align and small_unit_bits(tree):
+        sigs.append("F23")
+    return sigs
+
+
+def sizeof_expr(cs, name):
+    try:
+        return impl.dc().expression.Expression(cs, f"sizeof({name})").evaluate()
+    except Exception as e:  # noqa: BLE001
+        return repr(e)
+
+
+def size_agreement(cs, U, rnd, name=None, k=None):
+    """the property's size predicate on one fixed-size type U (or on the array type U[k]): len, sizeof (when the type has a
+    name), bytes consumed by parsing and bytes produced by dumping must all agree.  -> None or a description"""
+    n_ = U.size
+    t = U if k is None else U[k]
+    want = n_ if k is None else n_ * k
+    got = {"len": len(t)}
+    if name is not None and k is None:
+        got["sizeof"] = sizeof_expr(cs, name)
+    inputs = [bytes(want + 7)]  # zero bytes parse everywhere (UTF-16 stays well-formed)
+    r = impl.parse(t, rand_bytes(rnd, want + 7))
+    if r[0] != "ok":
+        r = impl.parse(t, inputs[0])
+    if r[0] != "ok":
+        got["parsed"] = r
+    else:
+        got["parsed"] = r[2]
+        d = impl.dump(t, r[1])
+        got["dumped"] = len(d[1]) if d[0] == "ok" else d
+    if any(v != want for v in got.values()) or (k is not None and want != len(t)):
+        return f"{'element size ' + str(n_) + ' x ' + str(k) + ': ' if k else ''}" + ", ".join(f"{a}={b}" for a, b in got.items()) + ": these must agree"
+    return None
+
+
+def sub_aggregates(eng, res, rnd, L, tree, align, cfg):
+    """size agreement evaluated directly on every nested struct / union class of the loaded definition, standalone and as
+    array element"""
+    for path, sub, U in impl.aggregates(tree, L.T)[1:]:
+        if U.size is None:
+            res.feat("sub-aggregate:dynamic (not sized)")
+            continue
+        sigs = ["F23"] if (align and small_unit_bits(sub)) else []
+        for k in (None, rnd.choice([2, 3])):
+            res.count((L.text, align, L.pointer, path, k), True)
+            res.feat(f"sub-aggregate:{sub[0]}:{'standalone' if k is None else 'as-array-element'}")
+            bad = size_agreement(L.cs, U, rnd, k=k)
+            if bad:
+                eng.report(f"nested {sub[0]} at {path}{'' if k is None else f' as array [{k}]'}: {bad}",
+                           eng.case_data(L, nested=path, nested_definition=defs.render_struct("U", sub), array=k), sigs)
+
+
+def hoisted(eng, res, rnd, L, tree, align, ptr):
+    """the same definition with its nested aggregates as named definitions: same layout as inline; len / sizeof / parsed /
+    dumped agree for every named type"""
+    plan, tree2 = defs.hoist(tree, rnd, p=0.8, top_align=align, mixed=False)
+    if len(plan) == 1:
+        return
+    sess = impl.Session(endian="<", pointer=ptr)
+    try:
+        for name, sub, a in plan:
+            V = sess.load(sub, name, compiled=L.compiled, align=a, text=defs.render_struct_refs(name, sub))
+    except Exception as e:  # noqa: BLE001
+        eng.report(f"the definition is accepted inline but rejected with named sub-definitions: {type(e).__name__}: {e}",
+                   {"history": list(sess.steps), "repro": sess.script()}, [])
+        return
+    res.feat("hoisted:definitions")
+    f23 = ["F23"] if (align and small_unit_bits(tree)) else []
+    inline = (L.T.size, L.T.alignment, [f.offset for f in L.T.__fields__])
+    named = (V.T.size, V.T.alignment, [f.offset for f in V.T.__fields__])
+    res.count(("hoisted", V.text, align, ptr), True)
+    if inline != named:
+        eng.report(f"layout {named} with named sub-definitions differs from the layout {inline} of the inline definition", eng.case_data(V, inline=L.text), f23)
+    for name, sub, a in plan:
+        U = getattr(sess.cs, name)
+        if U.size is None:
+            continue
+        sigs = ["F23"] if (align and small_unit_bits(sub)) else []
+        for k in (None, 2):
+            res.count(("hoisted", V.text, align, ptr, name, k), True)
+            res.feat(f"hoisted:{sub[0]}:{'sizeof+standalone' if k is None else 'as-array-element'}")
+            bad = size_agreement(sess.cs, U, rnd, name=name, k=k)
+            if bad:
+                eng.report(f"named {sub[0]} {name}{'' if k is None else f'[{k}]'}: {bad}", eng.case_data(V, type=name, array=k), sigs)
+
+
+def pointer_histories(eng, res, rnd, tier):
+    """pointer-width histories on one instance"""
+    seen = 0
+    for _ in range(220 if tier == "quick" else 5000):
+        g = defs.Gen(rnd, allow_dynamic=rnd.random() < 0.2, max_depth=rnd.choice([1, 2, 3]))
+        trees = [s1_hist.with_pointers(rnd, g, g.struct())]
+        for _j in range(rnd.choice([1, 1, 2])):
+            trees.append(trees[-1] if rnd.random() < 0.4 else s1_hist.with_pointers(rnd, g, g.struct()))
+        align, compiled = rnd.random() < 0.5, rnd.random() < 0.5
+
+        def on_loaded(L, i, sess, tree, err):
+            nonlocal seen
+            ptr = sess.pointer
+            cfg = refimpl.Cfg("<", align, ptr, impl.CONSTS)
+            sigs = signatures(tree, cfg, align)
+            try:
+                ref = refimpl.struct_layout(tree[1], cfg)
+            except refimpl.Bad:
+                ref = None
+            res.feat("ptr-history:definition:" + ("first-width" if i == 0 else "after-width-change"))
+            if L is None:
+                if ref is not None:
+                    eng.report(f"definition is rejected with {type(err).__name__}: {err}", {"history": list(sess.steps), "repro": sess.script()}, sigs)
+                return
+            res.count(("ptr-history", sess.script(), align), True)
+            # what a fresh instance configured with this width gives
+            F, _ = load(tree, endian="<", align=align, compiled=compiled, pointer=ptr)
+            if F is not None:
+                fresh = (F.T.size, F.T.alignment, [f.offset for f in F.T.__fields__])
+                real = (L.T.size, L.T.alignment, [f.offset for f in L.T.__fields__])
+                if fresh != real and ref is not None and (ref["size"], ref["align"], ref["offsets"]) == fresh:
+                    res.feat("ptr-history:differs-from-fresh-instance")
+            if evaluate(eng, res, rnd, L, tree, align, ptr, cfg, sigs, ref, model=False):
+                seen += 1
+            sub_aggregates(eng, res, rnd, L, tree, align, cfg)
+
+        s1_hist.pointer_history(rnd, trees, align=align, compiled=compiled, on_loaded=on_loaded)
+        res.feat("ptr-history:instances")
+    return seen
+
+
+def evaluate(eng, res, rnd, L, tree, align, ptr, cfg, sigs, ref, model=True):
+    """layout of one loaded definition against the C rule (refimpl), the Lean model, ctypes; size agreement.
+    -> whether the ctypes oracle applied"""
+    used_ct = False
+    T = L.T
+    real = (T.size, T.alignment, [f.offset for f in T.__fields__])
+    data = eng.case_data(L, real_layout=str(real))
+    if ref is None:
+        eng.report("a straddling bit-field was accepted", data, sigs)
+        return False
+    if (ref["size"], ref["align"], ref["offsets"]) != real:
+        eng.report(f"layout {real} differs from the C rule {(ref['size'], ref['align'], ref['offsets'])}", data, sigs)
+    if model:
+        eng.model_layout(L, ("ok", real), sigs)
+    # platform ABI
+    ct = to_ctypes(tree, align, ptr)
+    if ct is not None:
+        used_ct = True
+        res.feat("ctypes-oracle")
+        cl = (ctypes.sizeof(ct), ctypes.alignment(ct) if align else None, [getattr(ct, f"m{i}").offset for i in range(len(tree[1]))])
+        rl = (T.size, T.alignment if align else None, [f.offset for f in T.__fields__])
+        if len(tree[1]) and cl != rl:
+            eng.report(f"layout {rl} differs from the platform C ABI {cl}", data, sigs)
+    # natural alignment / non-overlap, stated directly
+    if align and T.size is not None:
+        for f in T.__fields__:
+            if f.offset is not None and f.offset % f.alignment:
+                eng.report(f"field {f._name} at offset {f.offset} is not a multiple of its alignment {f.alignment}", data, sigs)
+        if T.alignment and T.size % T.alignment:
+            eng.report(f"size {T.size} is not a multiple of the alignment {T.alignment}", data, sigs)
+    # size agreement
+    if T.size is not None and "F23" not in sigs:
+        n_ = T.size
+        try:
+            sz_expr = impl.dc().expression.Expression(L.cs, f"sizeof({T.__name__})").evaluate()
+        except Exception as e:  # noqa: BLE001
+            sz_expr = repr(e)
+        buf = rand_bytes(rnd, n_ + 7)
+        # keep UTF-16 well-formed: zero bytes parse everywhere
+        r = impl.parse(T, bytes(n_ + 7))
+        ok = r[0] == "ok" and r[2] == n_
+        d = impl.dump(T, r[1]) if r[0] == "ok" else ("err", "no value")
+        if sz_expr != n_ or not ok or d[0] != "ok" or len(d[1]) != n_:
+            eng.report(f"len({T.__name__})={n_}, sizeof({T.__name__})={sz_expr}, parsed {r[2] if r[0] == 'ok' else r}, dumped {len(d[1]) if d[0] == 'ok' else d}: these must agree",
+                       data, sigs)
+        del buf
+    return used_ct
+
+
 def run(env) -> Result:
     res = Result()
     res.rule = ("seeded random definition trees (scalars of every table type and alias, fixed arrays up to 2 dims, nested/anonymous structs "
                 "and unions, pointers, enums, bit-fields, void) plus all ordered pairs/triples of scalar types, each under {packed, aligned} x "
                 "pointer width; compared: real len/alignment/field offsets vs ctypes (C ABI) vs textbook rule vs Lean model; size agreement "
-                "len(T) = sizeof(T) = bytes parsed = bytes dumped. distinct = (definition text, align, pointer); non-trivial = >= 2 fields or a "
-                "composite field")
+                "len(T) = sizeof(T) = bytes parsed = bytes dumped, also for every nested struct/union class on its own and as array element "
+                "and for the definition with named (hoisted) sub-definitions; pointer-width histories on one instance (load, change "
+                "cs.pointer, load again). distinct = (definition text, align, pointer); non-trivial = >= 2 fields or a composite field")
     eng = Engine(env, res, "C04")
     rnd = mkrng(env["seed"], "c04")
     tier = env["tier"]
@@ -73,6 +268,10 @@ def run(env) -> Result:
     for _ in range(n):
         g = defs.Gen(rnd, allow_dynamic=rnd.random() < 0.25, max_depth=rnd.choice([1, 2, 3]))
         trees.append(g.struct())
+    # definitions that are certain to contain a nested union / structure (also as array element): size agreement per aggregate
+    for _ in range(150 if tier == "quick" else 4000):
+        g = defs.Gen(rnd, allow_dynamic=False, max_depth=rnd.choice([1, 2]))
+        trees.append(s1_mixed.with_nested(rnd, g, g.struct(), kind=rnd.choice(["union", "union", "struct"])))
     seen_ct = 0
     for tree in trees:
         for align in (False, True):
@@ -80,11 +279,7 @@ def run(env) -> Result:
             cfg = refimpl.Cfg("<", align, ptr, impl.CONSTS)
             L, err = load(tree, endian="<", align=align, compiled=rnd.random() < 0.5, pointer=ptr)
             nontrivial = len(tree[1]) >= 2 or tree[1][0]["ty"][0] in ("arr", "struct", "union")
-            sigs = []
-            if bits_after_dynamic(tree, cfg):
-                sigs.append("F6")
-            if align and small_unit_bits(tree):
-                sigs.append("F23")
+            sigs = signatures(tree, cfg, align)
             try:
                 ref = refimpl.struct_layout(tree[1], cfg)
             except refimpl.Bad:
@@ -98,49 +293,14 @@ def run(env) -> Result:
             res.count((L.text, align, ptr), nontrivial)
             for k, v in defs.features(tree).items():
                 res.feat(k, v)
-            T = L.T
-            real = (T.size, T.alignment, [f.offset for f in T.__fields__])
-            data = eng.case_data(L, real_layout=str(real))
-            if ref is None:
-                eng.report("a straddling bit-field was accepted", data, sigs)
-                continue
-            if (ref["size"], ref["align"], ref["offsets"]) != real:
-                eng.report(f"layout {real} differs from the C rule {(ref['size'], ref['align'], ref['offsets'])}", data, sigs)
-            eng.model_layout(L, ("ok", real), sigs)
-            # platform ABI
-            ct = to_ctypes(tree, align, ptr)
-            if ct is not None:
+            if evaluate(eng, res, rnd, L, tree, align, ptr, cfg, sigs, ref):
                 seen_ct += 1
-                res.feat("ctypes-oracle")
-                cl = (ctypes.sizeof(ct), ctypes.alignment(ct) if align else None, [getattr(ct, f"m{i}").offset for i in range(len(tree[1]))])
-                rl = (T.size, T.alignment if align else None, [f.offset for f in T.__fields__])
-                if len(tree[1]) and cl != rl:
-                    eng.report(f"layout {rl} differs from the platform C ABI {cl}", data, sigs)
-            # natural alignment / non-overlap, stated directly
-            if align and T.size is not None:
-                for f in T.__fields__:
-                    if f.offset is not None and f.offset % f.alignment:
-                        eng.report(f"field {f._name} at offset {f.offset} is not a multiple of its alignment {f.alignment}", data, sigs)
-                if T.alignment and T.size % T.alignment:
-                    eng.report(f"size {T.size} is not a multiple of the alignment {T.alignment}", data, sigs)
-            # size agreement
-            if T.size is not None and "F23" not in sigs:
-                n_ = T.size
-                try:
-                    sz_expr = L.dc_expr("sizeof(T)") if False else impl.dc().expression.Expression(L.cs, "sizeof(T)").evaluate()
-                except Exception as e:  # noqa: BLE001
-                    sz_expr = repr(e)
-                buf = rand_bytes(rnd, n_ + 7)
-                # keep UTF-16 well-formed: zero bytes parse everywhere
-                r = impl.parse(T, bytes(n_ + 7))
-                ok = r[0] == "ok" and r[2] == n_
-                d = impl.dump(T, r[1]) if r[0] == "ok" else ("err", "no value")
-                if sz_expr != n_ or not ok or d[0] != "ok" or len(d[1]) != n_:
-                    eng.report(f"len(T)={n_}, sizeof(T)={sz_expr}, parsed {r[2] if r[0] == 'ok' else r}, dumped {len(d[1]) if d[0] == 'ok' else d}: these must agree",
-                               data, sigs + (["F9F10"] if has_union(tree) else []))
-                del buf
+            sub_aggregates(eng, res, rnd, L, tree, align, cfg)
+            if rnd.random() < 0.5:
+                hoisted(eng, res, rnd, L, tree, align, ptr)
         if len(eng.lines) > 4000:
             eng.flush()
+    seen_ct += pointer_histories(eng, res, mkrng(env["seed"], "c04-pointer-history"), tier)
     eng.flush()
     res.notes.append(f"{seen_ct} layouts were also compared with ctypes (platform ABI)")
     res.sample({"definition": defs.render_struct("T", trees[-1]), "aligned_layout_example": "see feature histogram"})
